@@ -52,7 +52,9 @@ package args
 //@ func (*Args).Clone
 //@   requires a != nil
 //@   assigns [C20] nothing
-//@   loop 0: invariant fresh(res)
+//@   ensures [C20] deep: result != nil && fresh(result) && fresh(result.Keys) && fresh(result.Values) && len(result.Keys) == len(a.Keys)
+//@   ensures [C20] copy: forall i int :: 0 <= i && i < len(a.Keys) ==> result.Keys[i] == a.Keys[i]
+//@   loop 0: invariant fresh(res) && fresh(res.Keys) && fresh(res.Values) && len(res.Keys) == len(a.Keys) && (forall i int :: 0 <= i && i < len(a.Keys) ==> res.Keys[i] == a.Keys[i])
 //@ // every stored value has its integers within the safe range
 //@ pure func argsInBounds(a *Args) bool = forall k string :: has(a.Values, k) ==> intsInBounds(a.Values[k])
 //@ // the verdict of Validate, named as a function of the arguments (Validate is deterministic and writes nothing)
